@@ -411,3 +411,18 @@ Fixpoint legal_main (k : nat) (l : list act) : option nat :=
       end
   end.
 
+(* destinations of a program are ranks of the communicator (hypotheses of RankNoErr.v; checked on every replayed scenario) *)
+Definition rngb (nr : nat) (d : Z) : bool := (0 <=? d) && (d <? Z.of_nat nr).
+Definition dests_ok (nr : nat) (a : act) : bool :=
+  match a with
+  | AAsync d _ _ | AAsyncRef d _ | AFunctor d _ _ _ => rngb nr d
+  | AMcast ds _ _ => forallb (rngb nr) ds
+  | _ => true
+  end.
+Definition hact_ok (nr : nat) (a : act) : bool := legal_h a && dests_ok nr a.
+Definition msg_okb (nr : nat) (m : msg) : bool := (mdest m =? -1) || rngb nr (mdest m).
+Definition resp_okb (nr : nat) (r : resp) : bool :=
+  match r with
+  | RTestRecv (Some ms) | RWaitSR _ (Some ms) | RWaitIR _ (Some ms) => forallb (msg_okb nr) ms
+  | _ => true
+  end.
